@@ -240,8 +240,6 @@ class Result(NamedItem):
 
         """
 
-        from .model import JunctionCompartment
-
         if self.model.progset is None:
             return None
 
@@ -259,10 +257,9 @@ class Result(NamedItem):
                     for comp_name in prog.target_comps:
                         comp = self.get_variable(comp_name, pop_name)[0]
 
-                        if isinstance(comp, JunctionCompartment):
-                            vals = comp.outflow
-                        else:
-                            vals = comp.vals
+                        # nb. the number of people in the compartment at each time, which is what the model used for the coverage
+                        # denominator during integration (a junction is always empty and therefore does not add to it)
+                        vals = comp.vals
 
                         if prog.name not in num_eligible:
                             num_eligible[prog.name] = vals.copy()
